@@ -26,6 +26,7 @@ fn step(verb: &str, arg: &str, tgt: &str) -> Step {
 struct Files {
     small: String,
     big: String,
+    huge: String, // > 512 Ki small messages (more than the server's bounded channels hold); empty if not generated
     n_small: u64,
     n_big: u64,
     empty: String,
@@ -39,6 +40,7 @@ struct CaseSpec {
     src: &'static str,
     mode: &'static str, // awaited | pipelined
     big: bool,
+    huge: bool, // runs on the server process without parser throttle
     steps: Vec<Step>,
 }
 
@@ -61,6 +63,8 @@ fn concretise(verb: &str, arg: &str, tk: Option<&str>, f: &Files, big: bool) -> 
             "ok_onepass" => j(json!({"collect":"one_pass_streams","files":[file]})),
             "ok_plugins" => j(json!({"files":[file],"plugins":[{"name":"FileTransfer"}]})),
             "ok_zip" => j(json!({"files":[f.realzip]})),
+            "ok_huge" => j(json!({"files":[f.huge]})),
+            "ok_huge_onepass" => j(json!({"collect":"one_pass_streams","files":[f.huge]})),
             "noarg" => String::new(),
             "badjson" => "{\"files\":[".to_string(),
             "nofiles" => "{}".to_string(),
@@ -324,6 +328,11 @@ fn run_case(port: u16, case: usize, cs: &CaseSpec, files: &Files, rng: &mut Rng)
                 std::thread::sleep(Duration::from_millis(250));
                 continue;
             }
+            if st.verb == "sleep" {
+                // pacing only (no event; not a command): e.g. let the parser fill the server's queues while paused
+                std::thread::sleep(Duration::from_millis(st.arg.parse().unwrap()));
+                continue;
+            }
             if st.pause_ms > 0 {
                 std::thread::sleep(Duration::from_millis(st.pause_ms));
             }
@@ -412,18 +421,43 @@ const FS: [&str; 16] = ["noarg", "badjson", "notobject", "nocmd", "nopath", "unk
 const UNKNOWN: [&str; 5] = ["frobnicate", "empty", "uppercase", "stream_window", "leadingspace"];
 const PLAIN: [&str; 2] = ["", "junk"];
 
-fn known_finding_input(s: &Step) -> bool {
-    (s.verb == "stream_search" && s.arg == "noarg" && !["none", "nonnum", ""].contains(&s.tgt.as_str()))
-        || (s.verb == "fs" && s.arg.starts_with("fakezip"))
-        || (s.verb == "open" && s.arg == "ok_onepass")
-}
-
-/// pipelined histories stay outside the inputs of the known findings: a reset connection loses the replies that
-/// were still in flight, so the exact circumstances of a connection kill could not be established from the trace
-fn random_history(rng: &mut Rng, len: usize, pipelined: bool) -> Vec<Step> {
+/// `multi`: sessions with several live streams - window changes on streams that are not the newest one (their id is
+/// renewed in place) followed by commands addressing every live id
+fn random_history(rng: &mut Rng, len: usize, pipelined: bool, multi: bool) -> Vec<Step> {
     let mut v = Vec::new();
     let mut created = 0usize; // streams requested so far (only to pick plausible targets; may be wrong - that is fine)
+    if multi {
+        v.push(step("open", if rng.chance(1, 4) { "ok_sort" } else { "ok" }, ""));
+        for _ in 0..rng.range(2, 4) {
+            v.push(step("stream", *rng.pick(&["ok", "ok_filt", "ok_defaults"]), ""));
+            created += 1;
+        }
+    }
     for _ in 0..len {
+        if multi && rng.chance(4, 5) {
+            let r = rng.below(100);
+            let s = if r < 30 {
+                // renew the id of a stream that is not the newest, then address every recent id
+                v.push(step("stream_change_window", *rng.pick(&["ok", "ok_empty", "ok_beyond"]), &format!("recent:{}", rng.range(1, 3))));
+                for k in 0..3 {
+                    let verb = *rng.pick(&["stream_search", "stream_binary_search", "stream_change_window"]);
+                    let arg = match verb { "stream_search" => "ok", "stream_binary_search" => "time", _ => "ok" };
+                    v.push(step(verb, arg, &format!("recent:{}", k)));
+                }
+                continue;
+            } else if r < 70 {
+                let verb = *rng.pick(&TARGET_VERBS[1..]);
+                let arg = match verb { "stream_change_window" => "ok", "stream_binary_search" => *rng.pick(&["time", "index_found"]), _ => *rng.pick(&["ok", "ok_defaults"]) };
+                step(verb, arg, &format!("recent:{}", rng.below(4)))
+            } else if r < 85 {
+                created += 1;
+                step(if rng.chance(4, 5) { "stream" } else { "query" }, *rng.pick(&["ok", "ok_filt"]), "")
+            } else {
+                step("stop", "", &format!("recent:{}", rng.below(4)))
+            };
+            v.push(s);
+            continue;
+        }
         let r = rng.below(100);
         let mut s = if r < 8 {
             let a = if rng.chance(3, 4) { *rng.pick(&OPEN_OK) } else { *rng.pick(&OPEN_BAD) };
@@ -450,7 +484,7 @@ fn random_history(rng: &mut Rng, len: usize, pipelined: bool) -> Vec<Step> {
                     format!("spec:{}", rng.below(3))
                 } else {
                     // one of the most recently announced streams (resolved when the command is sent)
-                    format!("recent:{}", rng.below(3))
+                    format!("recent:{}", rng.below(4))
                 }
             } else {
                 ["none", "nonnum", "dead", "old"][rng.below(4) as usize].to_string()
@@ -466,16 +500,13 @@ fn random_history(rng: &mut Rng, len: usize, pipelined: bool) -> Vec<Step> {
         if !pipelined && rng.chance(1, 6) {
             s.pause_ms = [1, 5, 20, 60, 150][rng.below(5) as usize];
         }
-        if pipelined && known_finding_input(&s) {
-            continue;
-        }
         v.push(s);
     }
     v
 }
 
 fn scripted() -> Vec<CaseSpec> {
-    let mk = |big: bool, mode: &'static str, v: Vec<Step>| CaseSpec { src: "scripted", mode, big, steps: v };
+    let mk = |big: bool, mode: &'static str, v: Vec<Step>| CaseSpec { src: "scripted", mode, big, huge: false, steps: v };
     let mut res = vec![
         // the three reproduced connection killers (Appendix C #8, #19, #20)
         mk(false, "awaited", vec![step("open", "ok", ""), step("stream", "ok_filt", ""), step("stream_search", "noarg", "h1"), step("close", "", "")]),
@@ -502,7 +533,28 @@ fn scripted() -> Vec<CaseSpec> {
     res
 }
 
-fn make_files(work: &str, seed: u64, n_small: usize, n_big: usize) -> Files {
+/// > 512 Ki minimal messages (no extended header, no payload; 24 bytes each), one ECU, 1 ms apart
+fn write_huge(path: &str, n: usize) {
+    use std::io::Write;
+    let mut w = std::io::BufWriter::with_capacity(1 << 20, std::fs::File::create(path).expect("create huge"));
+    for i in 0..n {
+        let m = adlt::dlt::DltMessage {
+            index: i as u32,
+            reception_time_us: BASE_US + 1_000_000 + i as u64 * 1000,
+            ecu: char4("ECUH"),
+            timestamp_dms: 10_000 + i as u32 * 10,
+            standard_header: adlt::dlt::DltStandardHeader { htyp: 0x20 | 0x10, mcnt: (i & 0xff) as u8, len: 0 },
+            extended_header: None,
+            payload: vec![],
+            payload_text: None,
+            lifecycle: 0,
+        };
+        m.to_write(&mut w).expect("write huge");
+    }
+    w.flush().unwrap();
+}
+
+fn make_files(work: &str, seed: u64, n_small: usize, n_big: usize, n_huge: usize) -> Files {
     let dir = format!("{}/files", work);
     std::fs::create_dir_all(&dir).unwrap();
     let mut rng = Rng::new(seed ^ 0xf11e5);
@@ -527,7 +579,14 @@ fn make_files(work: &str, seed: u64, n_small: usize, n_big: usize) -> Files {
         z.write_all(&std::fs::read(&small).unwrap()).unwrap();
         z.finish().unwrap();
     }
-    Files { small, big, n_small: n_small as u64, n_big: n_big as u64, empty, fakezip, realzip, missing: format!("{}/does_not_exist.dlt", dir), dir }
+    let huge = if n_huge > 0 {
+        let p = format!("{}/huge.dlt", dir);
+        write_huge(&p, n_huge);
+        p
+    } else {
+        String::new()
+    };
+    Files { small, big, huge, n_small: n_small as u64, n_big: n_big as u64, empty, fakezip, realzip, missing: format!("{}/does_not_exist.dlt", dir), dir }
 }
 
 fn main() {
@@ -540,7 +599,8 @@ fn main() {
     let n_random = a.num("--random", 0) as usize;
     let long_max = a.num("--long-max", 200) as usize;
     let throttle = a.str("--throttle", "64:6");
-    let files = make_files(&work, seed, a.num("--small", 300) as usize, a.num("--big", 6000) as usize);
+    let n_huge = a.num("--huge", 0) as usize;
+    let files = make_files(&work, seed, a.num("--small", 300) as usize, a.num("--big", 6000) as usize, n_huge);
 
     let mut cases: Vec<CaseSpec> = Vec::new();
     if !a.has("--no-scripted") {
@@ -548,14 +608,24 @@ fn main() {
     }
     if let Some(f) = a.get("--scenarios") {
         for scn in read_ndjson(f) {
-            cases.push(CaseSpec { src: "tlc", mode: "awaited", big: false, steps: parse_scn(&scn) });
+            cases.push(CaseSpec { src: "tlc", mode: "awaited", big: false, huge: false, steps: parse_scn(&scn) });
         }
+    }
+    if n_huge > 0 && !a.has("--no-scripted") {
+        // close must complete although more messages are queued behind the parser than the bounded channels hold
+        // (nobody consumes while the session is paused / in one-pass mode), and a new open must succeed afterwards
+        let hs = |v: Vec<Step>| CaseSpec { src: "scripted", mode: "awaited", big: false, huge: true, steps: v };
+        let wait_ms = a.str("--huge-wait-ms", "4000");
+        cases.push(hs(vec![step("open", "ok_huge", ""), step("pause", "", ""), step("sleep", &wait_ms, ""), step("close", "", ""), step("open", "ok", ""), step("close", "", "")]));
+        cases.push(hs(vec![step("open", "ok_huge", ""), step("close", "", ""), step("open", "ok", ""), step("close", "", "")]));
+        cases.push(hs(vec![step("open", "ok_huge_onepass", ""), step("sleep", &wait_ms, ""), step("close", "", ""), step("open", "ok", ""), step("close", "", "")]));
+        cases.push(hs(vec![step("open", "ok_huge", ""), step("pause", "", ""), step("sleep", &wait_ms, ""), step("stream", "ok", ""), step("close", "", ""), step("open", "ok_huge", ""), step("sleep", "300", ""), step("close", "", ""), step("fs", "stat_ok", "")]));
     }
     let mut rng = Rng::new(seed);
     for k in 0..n_random {
         let pipelined = k % 2 == 1;
         let len = rng.range(20, long_max as u64) as usize;
-        cases.push(CaseSpec { src: "random", mode: if pipelined { "pipelined" } else { "awaited" }, big: rng.chance(1, 2), steps: random_history(&mut rng, len, pipelined) });
+        cases.push(CaseSpec { src: "random", mode: if pipelined { "pipelined" } else { "awaited" }, big: rng.chance(1, 2), huge: false, steps: random_history(&mut rng, len, pipelined, k % 3 == 2) });
     }
     let mut rng_offset = 0usize; // keeps the per-case random choices of a replayed case identical to the original run
     if let Some(only) = a.get("--only-case") {
@@ -567,6 +637,9 @@ fn main() {
 
     let mut server = Server::start(&adlt, &work, "c15", if throttle == "none" { None } else { Some(&throttle) });
     let port = server.port;
+    // sessions on the huge log run against a second server process without parser throttle
+    let mut server2 = if cases.iter().any(|c| c.huge) { Some(Server::start(&adlt, &work, "c15-unthrottled", None)) } else { None };
+    let port2 = server2.as_ref().map(|s| s.port).unwrap_or(port);
     let cases = Arc::new(cases);
     let next = Arc::new(AtomicUsize::new(0));
     let results: Arc<Mutex<Vec<(usize, Vec<Value>)>>> = Arc::new(Mutex::new(Vec::new()));
@@ -581,14 +654,17 @@ fn main() {
             }
             let _ = w;
             let mut rng = Rng::new(seed ^ (((k + rng_offset) as u64) << 20)); // per case, independent of the worker
-            let evs = run_case(port, k, &cases[k], &files, &mut rng);
+            let evs = run_case(if cases[k].huge { port2 } else { port }, k, &cases[k], &files, &mut rng);
             results.lock().unwrap().push((k, evs));
         }));
     }
     for t in threads {
         t.join().unwrap();
     }
-    let exited = server.exited();
+    let mut exited = server.exited();
+    if let Some(s2) = server2.as_mut() {
+        exited = exited.or(s2.exited());
+    }
     let mut res = std::mem::take(&mut *results.lock().unwrap());
     res.sort_by_key(|e| e.0);
     let mut t = Trace::create(&out_path);
@@ -622,15 +698,19 @@ fn main() {
         Some(st) => t.ev(json!({"ev":"server_exit","status":st})),
         None => {
             // still serving: a fresh connection gets an answer
-            let evs = run_case(port, n, &CaseSpec { src: "server", mode: "awaited", big: false, steps: vec![step("fs", "stat_ok", "")] }, &files, &mut Rng::new(seed));
+            let evs = run_case(port, n, &CaseSpec { src: "server", mode: "awaited", big: false, huge: false, steps: vec![step("fs", "stat_ok", "")] }, &files, &mut Rng::new(seed));
             for e in evs.into_iter().skip(1) {
                 t.ev(e);
             }
         }
     }
     t.flush();
-    let panics = server.panic_lines();
+    let mut panics = server.panic_lines();
     server.stop();
+    if let Some(s2) = server2.as_mut() {
+        panics.extend(s2.panic_lines());
+        s2.stop();
+    }
     println!("{}", json!({"cases": n + 1, "lines": t.lines, "cmds": cmds, "conn_closed": closed, "drift": drift,
         "server_exit": exited, "panics": panics.iter().map(|p| json!({"where": p.0, "count": p.1})).collect::<Vec<_>>(),
         "stderr": server.stderr_path}));
